@@ -73,9 +73,12 @@ func (l *Lexer) NextToken() token.Token {
 	l.skipWhitespace()
 
 	// skip single-line comments
-	if l.ch == rune('/') && l.peekChar() == rune('/') {
+	//
+	// We loop here, rather than calling ourselves again after each
+	// comment, so that a long run of comment-lines cannot exhaust our
+	// stack.  (Skipping a comment also skips the whitespace after it.)
+	for l.ch == rune('/') && l.peekChar() == rune('/') {
 		l.skipComment()
-		return (l.NextToken())
 	}
 
 	switch l.ch {
